@@ -19,6 +19,7 @@ type PropCfg struct {
 	NotDecided  []string `json:"not_decided"`
 	Bounded     []string `json:"bounded_standins"`
 	TypeChecks  []string `json:"type_checks"` // names of go/types-level obligation generators
+	Sweep       []string `json:"sweep"`       // packages (short path) whose contract-less functions get the safety obligations only
 }
 
 type Obligation struct {
@@ -334,6 +335,27 @@ func cmdCheck(args []string) int {
 		}
 		results = append(results, r)
 		all = append(all, r.VCs...)
+	}
+	// safety-only sweep: every function of the listed packages that has no contract of its own is run
+	// with the empty contract (no requires, modifies everything) so that only the no-panic obligations
+	// (bounds, nil map writes, failed assertions, division) are generated for it.
+	for _, sp := range cfg.Sweep {
+		fns := eng.fnsOfPkg(sp)
+		if len(fns) == 0 {
+			return undecided("sweep: no functions found in " + sp)
+		}
+		for _, fn := range fns {
+			if eng.contractFor(fn) != nil {
+				continue
+			}
+			con := &Contract{Key: fn.String(), Kind: "func", FnName: fn.Name(), Pkg: fnPkgPath(fn), HavocAll: true}
+			r := eng.verifyFunction(fn, con, 4096)
+			if r.Err != "" {
+				return undecided("sweep " + shortFn(fn) + ": " + oneLine(r.Err))
+			}
+			results = append(results, r)
+			all = append(all, r.VCs...)
+		}
 	}
 	for _, ln := range cfg.Lemmas {
 		var lc *Contract
